@@ -81,6 +81,7 @@ func invoke(recv any, helper avfs.VFS, idm avfs.IdentityMgr, o opDesc) (out outc
 	var (
 		args   []reflect.Value
 		bufs   [][]byte
+		datas  [][]byte // buffers handed to the call, overwritten once it has returned
 		walked []string
 		rets   []reflect.Value
 		prepOK = true
@@ -118,7 +119,9 @@ func invoke(recv any, helper avfs.VFS, idm avfs.IdentityMgr, o opDesc) (out outc
 			case "bool":
 				v = reflect.ValueOf(a.I != 0)
 			case "data":
-				v = reflect.ValueOf([]byte(a.S))
+				d := []byte(a.S)
+				datas = append(datas, d)
+				v = reflect.ValueOf(d)
 			case "buf":
 				b := make([]byte, a.I)
 				bufs = append(bufs, b)
@@ -176,6 +179,10 @@ func invoke(recv any, helper avfs.VFS, idm avfs.IdentityMgr, o opDesc) (out outc
 
 		rets = m.Call(args)
 	})
+
+	for _, d := range datas {
+		fsx.Scribble(d)
+	}
 
 	if k != "" {
 		return outcome{Kind: k, Msg: msg}
@@ -243,6 +250,9 @@ func invoke(recv any, helper avfs.VFS, idm avfs.IdentityMgr, o opDesc) (out outc
 					vals = append(vals, "<nil>")
 				} else {
 					vals = append(vals, fmt.Sprintf("%q", r.Bytes()))
+					// a returned slice must not be storage of the base file system:
+					// what the caller does with it later cannot change the base
+					fsx.Scribble(r.Bytes())
 				}
 			case rt == tStrings:
 				if r.IsNil() {
